@@ -75,6 +75,17 @@ fn facts_json(d: &InterpreterData, reg: &mut SigRegistry) -> Value {
     })
 }
 
+/// the value texts of the given facts (`facts_json`) that `serde_json::from_str::<JValue>` rejects: the model's `isJson` oracle
+fn non_json_values(facts: &[&Value]) -> Vec<String> {
+    let mut bad: Vec<String> = vec![];
+    for f in facts {
+        if let Some(pairs) = f["stores"]["value"].as_array() {
+            for p in pairs { if let Some(t) = p[1].as_str() { if serde_json::from_str::<air_interpreter_value::JValue>(t).is_err() && !bad.iter().any(|b| b == t) { bad.push(t.to_string()); } } }
+        }
+    }
+    bad
+}
+
 /// the five lines of `verification_step::verify` on the same decoded instances, errors in the model's vocabulary
 fn real_verification(prev: &InterpreterData, cur: &InterpreterData, salt: &str) -> Value {
     let r = std::panic::catch_unwind(std::panic::AssertUnwindSafe(|| -> Value {
@@ -87,12 +98,14 @@ fn real_verification(prev: &InterpreterData, cur: &InterpreterData, salt: &str) 
                     json!({"result": "error", "code": codes::prep("CidStoreVerificationError"), "sub": sub, "cid": cid, "text": e.to_string()})
                 }
                 CidStoreVerificationError::MissingReference { target_cid_repr, .. } => json!({"result": "error", "code": codes::prep("CidStoreVerificationError"), "sub": "MissingReference", "cid": target_cid_repr.to_string(), "text": e.to_string()}),
+                CidStoreVerificationError::MalformedValue { cid_repr, .. } => json!({"result": "error", "code": codes::prep("CidStoreVerificationError"), "sub": "MalformedValue", "cid": cid_repr.to_string(), "text": e.to_string()}),
             };
         }
         let ver_err = |e: &DataVerifierError| -> Value {
             let (sub, peer) = match e { DataVerifierError::MalformedKey { .. } => ("MalformedKey", None), DataVerifierError::MalformedSignature(_) => ("MalformedSignature", None),
                 DataVerifierError::PeerIdNotFound(p) => ("PeerIdNotFound", Some(p.clone())), DataVerifierError::SignatureMismatch { peer_id, .. } => ("SignatureMismatch", Some(peer_id.clone())),
-                DataVerifierError::MergeMismatch { peer_id, .. } => ("MergeMismatch", Some(peer_id.clone())) };
+                DataVerifierError::MergeMismatch { peer_id, .. } => ("MergeMismatch", Some(peer_id.clone())),
+                DataVerifierError::CidNotFound(_) => ("CidNotFound", None) };
             json!({"result": "error", "code": codes::prep("DataSignatureCheckError"), "sub": sub, "peer": peer, "text": e.to_string().chars().take(300).collect::<String>()})
         };
         let pv = match DataVerifier::new(prev, salt) { Ok(v) => v, Err(e) => return ver_err(&e) };
@@ -420,7 +433,8 @@ fn attack_history(ctx: &mut Ctx, rep: &mut Report, rng: &mut Rng, air: &str, net
                 let prev_d: InterpreterData = decode_data(&prev).map(|x| x.1).unwrap_or_default();
                 if let Some((_, cur_d)) = decode_data(&data) {
                     let real = real_verification(&prev_d, &cur_d, &net.particle);
-                    let req = json!({"op": "verify_data", "salt": net.particle, "cur": facts_json(&cur_d, &mut reg), "prev": facts_json(&prev_d, &mut reg)});
+                    let (cf, pf) = (facts_json(&cur_d, &mut reg), facts_json(&prev_d, &mut reg));
+                    let req = json!({"op": "verify_data", "salt": net.particle, "non_json_values": non_json_values(&[&cf, &pf]), "cur": cf, "prev": pf});
                     let m = ctx.driver.ask(&req);
                     rep.model_compared += 1; rep.stat(&format!("honest_delivery_model_verdict_{}", m["result"].as_str().unwrap_or("?")));
                     let code = run_victim(&data, &net.particle).ok().map(|o| o.ret_code);
@@ -550,7 +564,8 @@ fn run_case(ctx: &mut Ctx, rep: &mut Report, e: &CaseEnv, reg: &mut SigRegistry,
     // ---- correspondence with the model of the verification step
     if let Some((_, cur_data)) = decode_data(cur) {
         let real = real_verification(prev_data, &cur_data, particle);
-        let req = json!({"op": "verify_data", "salt": particle, "cur": facts_json(&cur_data, reg), "prev": facts_json(prev_data, reg)});
+        let (cf, pf) = (facts_json(&cur_data, reg), facts_json(prev_data, reg));
+        let req = json!({"op": "verify_data", "salt": particle, "non_json_values": non_json_values(&[&cf, &pf]), "cur": cf, "prev": pf});
         let m = ctx.driver.ask(&req);
         rep.model_compared += 1;
         rep.stat(&format!("model_verdict_{}{}", m["result"].as_str().unwrap_or("?"), m["sub"].as_str().map(|s| format!(":{s}")).unwrap_or_default()));
